@@ -95,7 +95,7 @@ FollowStep ==
 
 TraceNext ==
   /\ tid <= Len(Traces)
-  /\ \/ /\ l = 0 /\ Build(Tr.cls, Tr.reg, Tr.unit) /\ l' = 1 /\ tid' = tid
+  /\ \/ /\ l = 0 /\ Build(Tr.cls, Tr.reg, Tr.unit, Tr.pre, Tr.memo) /\ l' = 1 /\ tid' = tid
      \/ /\ l >= 1 /\ l <= NP /\ PathStep /\ l' = l + 1 /\ tid' = tid
      \/ /\ l = NP + 1 /\ phase' = "follow" /\ order' = Tr.order /\ UNCHANGED <<obj, chain, st, fups>> /\ l' = l + 1 /\ tid' = tid
      \/ /\ l >= NP + 2 /\ l <= NP + 1 + NF /\ FollowStep /\ l' = l + 1 /\ tid' = tid
